@@ -30,6 +30,7 @@ def zOf (kind : String) (e : Elem) : Elem :=
 /-- the element type's `ConstDefault::DEFAULT` -/
 def dOf (kind : String) : Elem :=
   match kind with
+  | "unit" => []
   | "u8" | "u64" => [0]
   | "b3" => [0, 0, 0]
   | "slot" => [7, 0, 4660]
